@@ -190,6 +190,20 @@ def run(chk, replay=None):
         cp = os.path.join(ROOT, 'corpus', 'C13.txt')
         if os.path.exists(cp):
             lines = [l.strip() for l in open(cp) if l.strip()] + lines
+    if not replay:
+        # probe of known finding C13-mathml-ids-not-collected: identifiers inside a math string
+        math = '<math xmlns="http://www.w3.org/1998/Math/MathML" id="b4da55"><apply id="b4da56"><eq/><ci>a</ci><ci>b</ci></apply></math>\n'
+        pm = {'id': '', 'name': 'm', 'enc': '', 'units': [], 'comps': [{'id': '', 'name': 'c', 'enc': '', 'math': math, 'imp': {'src': None, 'ref': ''}, 'vars': [], 'resets': [], 'kids': []}]}
+        _, pr, _ = run_lines(hx, [], ['(annot %s (equivs ) (ops (printauto) (setmodel) (assignall)))' % E.sexp_model(pm)])
+        taken = [E.H('b4da55'), E.H('b4da56')]
+        hit = bool(pr) and any(t in pr[0].split('(r', 1)[-1] for t in taken)
+        if hit:
+            kf = [f for f in known_findings()['findings'] if f.get('id') == 'C13-mathml-ids-not-collected']
+            if kf:
+                chk.known_finding(kf[0]['what'])
+            else:
+                chk.violation('annotator violates the property: an identifier carried by a MathML element is handed out again by printModel(model, true) / assignAllIds()',
+                              {'kind': 'oracle', 'engine': 'annot', 'lines': ['(annot %s (equivs ) (ops (printauto) (setmodel) (assignall)))' % E.sexp_model(pm)], 'why': pr[0][:300]}, True)
     _, impl, e1 = run_lines_parallel(hx, [], lines)
     mlines, opsl = [], []
     for l, x in zip(lines, impl):
